@@ -21,7 +21,7 @@ ASSUME = ["the original program's run is the reference (metamorphic oracle)",
           "fix descriptions are read through the verif-batch hook only for coverage keys and signatures"]
 BATCH = 2
 FLOOR = {"quick": 8, "thorough": 15}
-BUDGET = {"quick": 45, "thorough": 840}
+BUDGET = {"quick": 35, "thorough": 840}
 E = G.E
 INT, BOOL, STR, UNIT = G.INT, G.BOOL, G.STR, G.UNIT
 
